@@ -1026,9 +1026,12 @@ impl<'a> Case<'a> {
             }
             "links" => {
                 let mut parts = Vec::new();
+                let mut pairs_seen: Vec<(IpAddr, IpAddr)> = Vec::new();
+                let mut return_obs: Option<String> = None;
                 self.sim.links(|links| {
                     for link in links {
                         let (a, b) = link.pair();
+                        pairs_seen.push((a, b));
                         let mut ms = Vec::new();
                         for sent in link {
                             let (s, d) = sent.pair();
@@ -1039,7 +1042,34 @@ impl<'a> Case<'a> {
                         parts.push(addrs(|m| format!("{}-{}[{}]", m.tok_of(a), m.tok_of(b), ms.join(","))));
                     }
                 });
-                format!("links {}", parts.join(" "))
+                // Sim::reverse_lookup_pair must agree with two single reverse lookups (named hosts only)
+                for (a, b) in pairs_seen {
+                    if let (Some(na), Some(nb)) = (self.sim.reverse_lookup(a), self.sim.reverse_lookup(b)) {
+                        let (pa, pb) = self.sim.reverse_lookup_pair((a, b));
+                        if pa != na || pb != nb {
+                            return_obs = Some(format!("err reverse_lookup_pair ({pa},{pb}) != ({na},{nb})"));
+                        }
+                    }
+                }
+                match return_obs.take() {
+                    Some(e) => e,
+                    None => format!("links {}", parts.join(" ")),
+                }
+            }
+            "deliverall" => {
+                // LinkIter::deliver_all on the link between two hosts
+                let (x, y) = (ip(t[1]), ip(t[2]));
+                let mut done = false;
+                self.sim.links(|links| {
+                    for link in links {
+                        let (a, b) = link.pair();
+                        if (a == x && b == y) || (a == y && b == x) {
+                            link.deliver_all();
+                            done = true;
+                        }
+                    }
+                });
+                if done { "ok".into() } else { "err nolink".into() }
             }
             "deliver" => {
                 // deliver the idx-th in-flight message of the link between two hosts
